@@ -4,6 +4,7 @@
 -/
 import Lemmas.PipelineFacts
 import Lemmas.OptimalOneLine
+import Lemmas.InplaceWrap
 import Lemmas.Ansi
 import TextwrapModel.Tables
 namespace TW.C05
@@ -281,6 +282,203 @@ theorem shortcut_sound_optimal (env : Env) (hsp : env.cw SP = 1) (hcw : ∀ c, e
   have hnp := pipeline_noPen env o hb line _ frs hpipe
   rw [fits_one_line_optimal env hsp mo o hb p halg hP line nPrev frs hpipe hn hmo
     (by rw [hind]; simp [displayWidth, dwFrom]; unfold displayWidth at hdw; omega)]
+  unfold wrapSingleLine
+  have hc : blen line < o.width ∧ (if nPrev = 0 then o.initialIndent else o.subsequentIndent).isEmpty = true := hshort
+  rw [if_pos hc]
+  simp only [Option.map_some, Option.some.injEq]
+  rw [one_line_render env o line nPrev frs c2 hl hnp c1, hind]
+  simp [LineD.render]
+
+/-! ### the shortcut is sound for ALL text (no additivity hypothesis)
+
+The shortcut fires when `line.len() < width`. The cached fragment widths and whitespace
+lengths sum to at most the byte length of the line (each cached width is a display width from
+state `normal`, hence ≤ its byte length — C10), whatever escape sequences the fragments cut
+through. So first-fit never breaks such a line, and optimal-fit's unique optimum is one line. -/
+
+/-- first-fit keeps the fragments on one line whenever their cached widths and whitespace fit
+    the first line width -/
+theorem one_line_of_fragSum_firstfit (env : Env) (mo : MinimaOracle Int) (o : Opts) (hb : Builtin o.splitter)
+    (halg : o.alg = .firstFit) (line : Text) (nPrev : Nat) (frs : List Word)
+    (hpipe : pipeline env o line (o.width - displayWidth env.cw o.subsequentIndent) = some frs)
+    (hfit : fragSum frs ≤ o.width - displayWidth env.cw (indentOf o nPrev)) :
+    wrapSingleLineSlow env mo o line nPrev = some (specLines o [frs] 0 nPrev) := by
+  obtain ⟨c1, _⟩ := pipeline_contig env o (builtin_inRange _ _ hb) line _ frs hpipe
+  have hnp := pipeline_noPen env o hb line _ frs hpipe
+  unfold wrapSingleLineSlow
+  simp only [hpipe, halg, wrapAlg]
+  have hone : wrapFirstFit (fragOf (α := Int)) frs
+      (List.map CostNum.ofNat [if nPrev = 0 then o.width - displayWidth env.cw o.initialIndent
+                                else o.width - displayWidth env.cw o.subsequentIndent,
+                               o.width - displayWidth env.cw o.subsequentIndent]) = [frs] := by
+    unfold wrapFirstFit
+    generalize hlws : (List.map (CostNum.ofNat (α := Int)) [if nPrev = 0 then o.width - displayWidth env.cw o.initialIndent
+                                else o.width - displayWidth env.cw o.subsequentIndent,
+                               o.width - displayWidth env.cw o.subsequentIndent]) = lws
+    have := ffGo_one_line lws (defaultLw lws) 0 [] frs 0 (by simp) hnp ?_
+    · simpa using this
+    · subst hlws
+      simp only [fragSum_nil, Nat.zero_add, List.map_cons, List.getD_cons_zero, ofNat_int]
+      unfold indentOf at hfit
+      split <;> simp_all
+  rw [hone]
+  exact reassemble_eq_spec o line [] [frs] 0 nPrev (by simp [c1]) rfl
+
+/-- **shortcut soundness, first-fit, every text**: hypotheses are only the built-in splitter,
+    the bound `cw c ≤ utf8 length` (table obligation) and `LastOk` (a theorem for the ASCII
+    separator) -/
+-- @audit TW.C05.shortcut_sound_firstfit_all
+theorem shortcut_sound_firstfit_all (env : Env) (hcw : ∀ c, env.cw c ≤ c.utf8Size)
+    (mo : MinimaOracle Int) (o : Opts) (hb : Builtin o.splitter) (halg : o.alg = .firstFit)
+    (line : Text) (nPrev : Nat) (frs : List Word)
+    (hpipe : pipeline env o line (o.width - displayWidth env.cw o.subsequentIndent) = some frs)
+    (hl : LastOk frs)
+    (hshort : blen line < o.width ∧ (indentOf o nPrev).isEmpty = true) :
+    (wrapSingleLineSlow env mo o line nPrev).map (·.map LineD.render) =
+      (wrapSingleLine env mo o line nPrev).map (·.map LineD.render) := by
+  have hind : indentOf o nPrev = [] := by simpa using hshort.2
+  obtain ⟨c1, c2⟩ := pipeline_contig env o (builtin_inRange _ _ hb) line _ frs hpipe
+  have hnp := pipeline_noPen env o hb line _ frs hpipe
+  have hsum := fragSum_le_blen env.cw hcw frs c2
+  rw [c1] at hsum
+  rw [one_line_of_fragSum_firstfit env mo o hb halg line nPrev frs hpipe
+    (by rw [hind]; simp [displayWidth, dwFrom]; omega)]
+  unfold wrapSingleLine
+  have hc : blen line < o.width ∧ (if nPrev = 0 then o.initialIndent else o.subsequentIndent).isEmpty = true := hshort
+  rw [if_pos hc]
+  simp only [Option.map_some, Option.some.injEq]
+  rw [one_line_render env o line nPrev frs c2 hl hnp c1, hind]
+  simp [LineD.render]
+
+/-- **ASCII separator: the shortcut of `wrap_single_line` is unobservable for every line, every
+    width, both built-in splitters, `break_words` on or off (first-fit)** — no hypothesis on the
+    text at all -/
+-- @audit TW.C05.shortcut_sound_ascii_all
+theorem shortcut_sound_ascii_all (env : Env) (hcw : ∀ c, env.cw c ≤ c.utf8Size)
+    (mo : MinimaOracle Int) (o : Opts) (hb : Builtin o.splitter) (halg : o.alg = .firstFit)
+    (hsep : o.sep = .ascii) (line : Text) (nPrev : Nat)
+    (hshort : blen line < o.width ∧ (indentOf o nPrev).isEmpty = true) :
+    (wrapSingleLineSlow env mo o line nPrev).map (·.map LineD.render) =
+      (wrapSingleLine env mo o line nPrev).map (·.map LineD.render) := by
+  cases hp : pipeline env o line (o.width - displayWidth env.cw o.subsequentIndent) with
+  | none => exact absurd hp (fun h => shortcut_sound_ascii_escfree.pipeline_ascii_total env o hsep hb line _ h)
+  | some frs =>
+    exact shortcut_sound_firstfit_all env hcw mo o hb halg line nPrev frs hp
+      (pipeline_lastOk_ascii env o hsep (builtin_inRange _ _ hb) line _ frs hp) hshort
+
+theorem wrapR_congr (elen : Nat) (s1 s2 : Text → Nat → Option (List LineD))
+    (h : ∀ p n, (s1 p n).map (·.map LineD.render) = (s2 p n).map (·.map LineD.render))
+    (ps : List Text) (off n : Nat) : wrapR elen s1 ps off n = wrapR elen s2 ps off n := by
+  induction ps generalizing off n with
+  | nil => rfl
+  | cons p r ih =>
+    rw [wrapR_cons, wrapR_cons]
+    have hp := h p n
+    cases e1 : s1 p n with
+    | none =>
+      cases e2 : s2 p n with
+      | none => rfl
+      | some l2 => rw [e1, e2] at hp; simp at hp
+    | some l1 =>
+      cases e2 : s2 p n with
+      | none => rw [e1, e2] at hp; simp at hp
+      | some l2 =>
+        rw [e1, e2] at hp
+        simp only [Option.map_some, Option.some.injEq] at hp
+        have hlen : l1.length = l2.length := by
+          have := congrArg List.length hp; simpa using this
+        simp only [hlen, hp, ih]
+
+/-- `wrap` with the shortcut removed: every paragraph goes through the general path -/
+def wrapNoShortcut (env : Env) (mo : MinimaOracle Int) (o : Opts) (text : Text) : Option (List Text) :=
+  wrapR (blen o.lineEnding.str) (wrapSingleLineSlow env mo o) (splitEnding o.lineEnding text) 0 0
+
+/-- **the shortcut path is unobservable**: `wrap` returns the same lines whether or not its
+    byte-length shortcut exists — every text, width, indents, paragraph structure; ASCII
+    separator, built-in splitters, `break_words` on/off, first-fit. Hence results never change
+    as the width crosses the byte length of a paragraph. -/
+-- @audit TW.C05.wrap_shortcut_unobservable_ascii
+theorem wrap_shortcut_unobservable_ascii (env : Env) (hcw : ∀ c, env.cw c ≤ c.utf8Size)
+    (mo : MinimaOracle Int) (o : Opts) (hb : Builtin o.splitter) (halg : o.alg = .firstFit)
+    (hsep : o.sep = .ascii) (text : Text) :
+    wrap env mo o text = wrapNoShortcut env mo o text := by
+  show wrapR _ (wrapSingleLine env mo o) _ 0 0 = wrapR _ (wrapSingleLineSlow env mo o) _ 0 0
+  apply wrapR_congr
+  intro p n
+  by_cases hshort : blen p < o.width ∧ (indentOf o n).isEmpty = true
+  · exact (shortcut_sound_ascii_all env hcw mo o hb halg hsep p n hshort).symm
+  · unfold wrapSingleLine
+    have : ¬ (blen p < o.width ∧ (if n = 0 then o.initialIndent else o.subsequentIndent).isEmpty = true) := hshort
+    rw [if_neg this]
+
+/-- optimal-fit keeps the fragments on one line whenever their cached widths and whitespace fit
+    the first line width (any conforming minima, `nline_penalty > 0`) -/
+theorem one_line_of_fragSum_optimal (env : Env) (mo : MinimaOracle Int) (o : Opts)
+    (hb : Builtin o.splitter) (p : Penalties) (halg : o.alg = .optimalFit p) (hP : 0 < p.nline)
+    (line : Text) (nPrev : Nat) (frs : List Word)
+    (hpipe : pipeline env o line (o.width - displayWidth env.cw o.subsequentIndent) = some frs)
+    (hmo : MoConforms mo p frs
+      [if nPrev = 0 then o.width - displayWidth env.cw o.initialIndent
+       else o.width - displayWidth env.cw o.subsequentIndent,
+       o.width - displayWidth env.cw o.subsequentIndent])
+    (hfit : fragSum frs ≤ o.width - displayWidth env.cw (indentOf o nPrev)) :
+    wrapSingleLineSlow env mo o line nPrev = some (specLines o [frs] 0 nPrev) := by
+  obtain ⟨c1, _⟩ := pipeline_contig env o (builtin_inRange _ _ hb) line _ frs hpipe
+  have hnp := pipeline_noPen env o hb line _ frs hpipe
+  unfold wrapSingleLineSlow
+  simp only [hpipe, halg]
+  by_cases hfr : frs = []
+  · subst hfr
+    have : wrapAlg mo (.optimalFit p) [] [if nPrev = 0 then o.width - displayWidth env.cw o.initialIndent
+        else o.width - displayWidth env.cw o.subsequentIndent, o.width - displayWidth env.cw o.subsequentIndent] = some [[]] := by
+      have hs := hmo.shape.1
+      simp only [List.map_nil, List.map_cons] at hs
+      unfold wrapAlg
+      have hl : List.map (CostNum.ofNat (α := Int)) [if nPrev = 0 then o.width - displayWidth env.cw o.initialIndent
+        else o.width - displayWidth env.cw o.subsequentIndent, o.width - displayWidth env.cw o.subsequentIndent] =
+          [((if nPrev = 0 then o.width - displayWidth env.cw o.initialIndent
+        else o.width - displayWidth env.cw o.subsequentIndent : Nat) : Int), ((o.width - displayWidth env.cw o.subsequentIndent : Nat) : Int)] := rfl
+      simp only [hl]
+      rcases TW.optimalFit_partition (fragOf (α := Int)) p ([] : List Word) _ _ (by
+          refine ⟨hs, ?_⟩
+          intro j h1 h2; simp at h2; omega) with ho | ⟨ls, e1, _, _, e4⟩
+      · exfalso
+        unfold wrapOptimalFitWith at ho
+        simp [CostNum.isInf, dpTable] at ho
+        split at ho <;> simp at ho
+      · simp only [List.map_nil]
+        rw [e1, e4 rfl]
+    rw [this]
+    exact reassemble_eq_spec o line [] [[]] 0 nPrev (by simp [c1]) rfl
+  · have hfitN : fragSum frs ≤ (if nPrev = 0 then o.width - displayWidth env.cw o.initialIndent
+        else o.width - displayWidth env.cw o.subsequentIndent) := by
+      unfold indentOf at hfit
+      split <;> simp_all
+    rw [wrapAlg_optimal_one_line mo p hP frs hfr _ _ hnp hfitN (by simpa [MoConforms] using hmo)]
+    exact reassemble_eq_spec o line [] [frs] 0 nPrev (by simp [c1]) rfl
+
+/-- **shortcut soundness, optimal-fit (the default algorithm), every text** -/
+-- @audit TW.C05.shortcut_sound_optimal_all
+theorem shortcut_sound_optimal_all (env : Env) (hcw : ∀ c, env.cw c ≤ c.utf8Size)
+    (mo : MinimaOracle Int) (o : Opts) (hb : Builtin o.splitter) (p : Penalties)
+    (halg : o.alg = .optimalFit p) (hP : 0 < p.nline)
+    (line : Text) (nPrev : Nat) (frs : List Word)
+    (hpipe : pipeline env o line (o.width - displayWidth env.cw o.subsequentIndent) = some frs)
+    (hl : LastOk frs)
+    (hmo : MoConforms mo p frs
+      [if nPrev = 0 then o.width - displayWidth env.cw o.initialIndent
+       else o.width - displayWidth env.cw o.subsequentIndent,
+       o.width - displayWidth env.cw o.subsequentIndent])
+    (hshort : blen line < o.width ∧ (indentOf o nPrev).isEmpty = true) :
+    (wrapSingleLineSlow env mo o line nPrev).map (·.map LineD.render) =
+      (wrapSingleLine env mo o line nPrev).map (·.map LineD.render) := by
+  have hind : indentOf o nPrev = [] := by simpa using hshort.2
+  obtain ⟨c1, c2⟩ := pipeline_contig env o (builtin_inRange _ _ hb) line _ frs hpipe
+  have hnp := pipeline_noPen env o hb line _ frs hpipe
+  have hsum := fragSum_le_blen env.cw hcw frs c2
+  rw [c1] at hsum
+  rw [one_line_of_fragSum_optimal env mo o hb p halg hP line nPrev frs hpipe hmo
+    (by rw [hind]; simp [displayWidth, dwFrom]; omega)]
   unfold wrapSingleLine
   have hc : blen line < o.width ∧ (if nPrev = 0 then o.initialIndent else o.subsequentIndent).isEmpty = true := hshort
   rw [if_pos hc]
